@@ -1,6 +1,10 @@
 """Registry of proof units.  A unit = one real function under contract (enforced), the callees replaced by their
 contracts, the harness that builds the pre-states, and the properties its obligations serve."""
 
+import os, sys
+sys.path.insert(0, os.path.join(os.path.dirname(os.path.abspath(__file__)), 'tools'))
+import layout
+
 AAP = 'cntgs::detail::AllocatorAwarePointer<.*>::'
 AAP_UNITS = [
     # (name, harness, enforced function regex, properties)
@@ -55,4 +59,12 @@ def units(tier, seed=0):
         for name, h, fn, props in AAP_UNITS:
             us.append(dict(id='aap.F%d.%s' % (f, name), tu='aap', defines=('VF_F=%d' % f,), template='aap.tpl.c', vars={'F': f},
                            entry=h, enforce='@F{%s}' % fn, replace=[], props=props, layer='allocator.hpp', kind='proof'))
+    for spec in layout.catalogue(tier, seed):
+        L = layout.Layout(spec)
+        txt = layout.c_unit(L)
+        cxx = L.cxx_tu()
+        for name, h, key, props in layout.LAYOUT_UNITS:
+            us.append(dict(id='lay.%s.%s' % (L.tag, name), tu='lay_' + L.tag, gen=cxx, template_text=txt, vars={}, entry=h,
+                           enforce='@F{%s}' % layout.RX[key], replace=[], props=props, layer='elementTraits.hpp/parameterTraits.hpp',
+                           kind='proof', config='layout: ' + spec))
     return us
